@@ -759,7 +759,6 @@ def cli_trace_inert(res, tier, seed, replay):
 
     with ThreadPoolExecutor(max_workers=vlib.NCPU) as ex:
         outs = list(ex.map(one, texts))
-    HDR = "// This file was generated by Peginator"
     ntr = 0
     for (nm, t), (plain, traced) in zip(texts, outs):
         ex_ = {"name": nm, "site": "cli-trace:" + nm.split("_")[0], "grammar": t[:2000]}
@@ -774,12 +773,11 @@ def cli_trace_inert(res, tier, seed, replay):
             res.add(Violation("C19", "TraceInert", "peginator-cli exits with %s, with --trace with %s (%s)" % (plain["code"], traced["code"], nm), None, ex_))
             continue
         if plain["code"] == 0:
-            i = traced["out"].find(HDR)
-            tail = traced["out"][i:] if i >= 0 else ""
-            if tail != plain["out"]:
+            # (the log goes to stderr today; were it printed to stdout it would come before the code)
+            if not traced["out"].endswith(plain["out"]):
                 res.add(Violation("C19", "TraceInert", "the code printed by peginator-cli --trace differs from the untraced output (%s)" % nm, None, ex_))
-            elif i > 0 or traced["err"]:
-                ntr += 1        # (the log goes to stderr, the code to stdout)
+            elif len(traced["out"]) > len(plain["out"]) or traced["err"]:
+                ntr += 1
         else:
             lp, lt = plain["out"].strip().splitlines()[-6:], traced["out"].strip().splitlines()[-6:]
             # the error report is the last block of the output in both runs
@@ -849,28 +847,28 @@ def strip_ansi(s_):
 
 
 def parse_pretty(disp, file):
-    """-> (line, col, echoed line, caret column) from the Display output"""
+    """-> (line, col, echoed line with its gutter, index of the caret in the caret line) from the Display output.
+    Only what C11 promises is looked for - two numbers, the printed line, a caret - not the cosmetics around
+    them (arrows, gutter characters, wording)."""
     import re
     ls = disp.split("\n")
-    if len(ls) < 5:
-        raise ValueError("unexpected shape")
-    loc = ls[1]
-    if not loc.startswith("--> "):
-        raise ValueError("no location line")
-    loc = loc[4:]
-    if file is None:
-        m = re.match(r"^Line (\d+) character (\d+)$", loc)
-    else:
-        m = re.match(r"^" + re.escape(file) + r":(\d+):(\d+)$", loc)
-    if not m:
-        raise ValueError("location line %r" % loc)
-    if not ls[3].startswith(" |  ") or not ls[4].startswith(" |  "):
-        raise ValueError("no gutter")
-    echoed = ls[3][4:]
-    caret = ls[4][4:]
-    if caret.strip() != "^":
-        raise ValueError("caret line %r" % caret)
-    return int(m.group(1)), int(m.group(2)), echoed, caret.index("^") + 1
+    ci = None
+    for i in range(len(ls) - 1, 0, -1):
+        if ls[i].count("^") == 1 and not re.search(r"[A-Za-z0-9]", ls[i]):
+            ci = i
+            break
+    if ci is None:
+        raise ValueError("no caret line")
+    nums = None
+    for i in range(ci - 2, -1, -1):
+        l_ = ls[i].replace(file, "") if file else ls[i]
+        m = re.findall(r"\d+", l_)
+        if len(m) >= 2:
+            nums = (int(m[-2]), int(m[-1]))
+            break
+    if nums is None:
+        raise ValueError("no line / column numbers before the printed line")
+    return nums[0], nums[1], ls[ci - 1], ls[ci].index("^")
 
 
 def check_C11(tier, seed, replay):
@@ -900,6 +898,9 @@ def check_C11(tier, seed, replay):
             lend = len(txt) if lend < 0 else lend
             extra.append({"text": cps, "pos": pos, "line": before.count("\n") + 1, "col": k - lstart + 1,
                           "linetext": [ord(c) for c in txt[lstart:lend]], "random": True})
+            if k != lstart:      # the same line at its first column: where the printed line starts under the gutter
+                extra.append({"text": cps, "pos": len(txt[:lstart].encode("utf-8")), "line": before.count("\n") + 1, "col": 1,
+                              "linetext": [ord(c) for c in txt[lstart:lend]], "random": True})
     d = vlib.famdir("pretty", tier)
     cases = []
     for e in exp + extra:
@@ -916,6 +917,16 @@ def check_C11(tier, seed, replay):
         raise ToolError("pretty runner failed: rc=%d %s" % (p_.returncode, p_.stderr[-500:]))
     outs = [json.loads(l) for l in open(of)]
     nontriv = 0
+    # where the printed line starts (gutter width): the caret of the same line's first column, per rendering
+    base = {}
+    for (e, file), o in zip(cases, outs):
+        if e["col"] == 1:
+            for mode in ("plain", "colored"):
+                if "display" in o[mode]:
+                    try:
+                        base[(tuple(e["text"]), e["line"], file, mode)] = parse_pretty(strip_ansi(o[mode]["display"]), file)[3]
+                    except ValueError:
+                        pass
     for (e, file), o in zip(cases, outs):
         text = "".join(map(chr, e["text"]))
         ident = {"case": {"text": e["text"], "pos": e["pos"], "file": file}}
@@ -936,6 +947,13 @@ def check_C11(tier, seed, replay):
                                   dict(ident, site=site, name=mode)))
                 continue
             want_line = "".join(map(chr, e["linetext"])).rstrip()
+            b0 = base.get((tuple(e["text"]), e["line"], file, mode))
+            if b0 is None:
+                res.add(Violation("C11", "Shape", "no rendering of the first column of line %d of text %r to compare with" % (e["line"], text), None,
+                                  dict(ident, site=site, name=mode)))
+                continue
+            echoed = echoed[b0:]
+            caret = caret - b0 + 1
             if (line, col) != (e["line"], e["col"]):
                 res.add(Violation("C11", "LineCol", "text %r position %d: reported line %d column %d, expected line %d column %d" % (
                     text, e["pos"], line, col, e["line"], e["col"]), None, dict(ident, site=site, name=mode)))
@@ -1520,21 +1538,21 @@ def check_C20(tier, seed, replay):
 
 
 # ---------------------------------------------------------------------------------------------- C16
-HEADER_RE = None
-
-
 def split_header(text):
-    """-> (header lines ok?, rest) for `// This file was generated by Peginator ...` framing"""
-    import re
-    global HEADER_RE
-    if HEADER_RE is None:
-        HEADER_RE = re.compile(r"\A// This file was generated by Peginator v[^\n]* built at \d+\n"
-                               r"// CRC-32/ISO-HDLC of the grammar file: [0-9a-f]{8}\n"
-                               r"// Any changes to it will be lost on regeneration\n")
-    m = HEADER_RE.match(text)
-    if not m:
+    """-> (header present?, rest): the header is the block of `//` comment lines at the very top of every
+    generated file, ended by an empty line (its wording - version, build time, checksum - is not part of any
+    property and is not looked at)"""
+    pos = 0
+    n = 0
+    while text.startswith("//", pos):
+        k = text.find("\n", pos)
+        if k < 0:
+            return False, text
+        pos = k + 1
+        n += 1
+    if n == 0 or not (text.startswith("\n", pos) or pos == len(text)):
         return False, text
-    return True, text[m.end():]
+    return True, text[pos:]
 
 
 def check_C16(tier, seed, replay):
@@ -1615,13 +1633,13 @@ def check_C16(tier, seed, replay):
             framed = True
         elif route == "cli":
             ok, rest = split_header(r["out"])
-            framed = ok and rest.startswith("\n") and rest.endswith("\n") and ("grammar file: " + crc) in r["out"]
+            framed = ok and rest.startswith("\n") and rest.endswith("\n")
             body = rest[1:-1] if framed else rest
         else:
             content = open(cmd[4] if route == "buildscript" else os.path.join(cmd[2], "a", "b", "g.rs")).read()
             ok, rest = split_header(content)
             lead = "\n" + pf + "\n"
-            framed = ok and rest.startswith(lead) and ("grammar file: " + crc) in content
+            framed = ok and rest.startswith(lead)
             body = rest[len(lead):] if framed else rest
         events.append({"ev": "emit", "route": route, "g": gid, "s": sname, "proc": proc, "framed": bool(framed),
                        "body": hashlib.sha256(body.encode("utf-8")).hexdigest()[:16]})
